@@ -59,13 +59,37 @@ func vpDecodeEntry(e int, b []byte) error {
 	return nil
 }
 
+// VpC01_Datagram: the datagram entry points (a[0] = 0 rtcp.Unmarshal, 16
+// CompoundPacket.Unmarshal) on a[1] octets; a[2:] fixes the length fields of
+// the leading frames so that frame offsets are concrete (every composition of
+// the datagram into frames plus an arbitrary tail is a case).
+func VpC01_Datagram(a []int) {
+	e, n := a[0], a[1]
+	b := vpBytes(n)
+	off := 0
+	for _, w := range a[2:] {
+		if off+4 <= n {
+			vpAssume(b[off+2] == 0 && int(b[off+3]) == w)
+		}
+		if off+16 <= n {
+			// TWCC frames: bounded packet status count (see the TWCC bound)
+			vpAssume(b[off+1] != 205 || b[off]&0x1f != 15 || (b[off+14] == 0 && b[off+15] <= 8))
+		}
+		off += 4 * (w + 1)
+	}
+	err := vpDecodeEntry(e, b)
+	vpAssert("C01.alloc-bounded", vpAllocBytes() <= 4<<20+64*n)
+	vpObserveBool("err", err != nil)
+	vpReach("end")
+}
+
 // VpC01_Decode: a[0] = entry point, a[1] = buffer length; all contents symbolic.
 func VpC01_Decode(a []int) {
 	e, n := a[0], a[1]
 	b := vpBytes(n)
 	if e == 8 && n >= 16 {
-		// bounded part of the TWCC claim: packet status count <= 32
-		vpAssume(b[14] == 0 && b[15] <= 32)
+		// bounded part of the TWCC claim: packet status count <= 8
+		vpAssume(b[14] == 0 && b[15] <= 8)
 	}
 	err := vpDecodeEntry(e, b)
 	vpAssert("C01.alloc-bounded", vpAllocBytes() <= 4<<20+64*n)
